@@ -197,6 +197,30 @@ def shard(ctx):
             if len(ctx.res.samples) < 2 and sname == "yaml-block":
                 ctx.sample({"model": model, "yaml_block_text": text[:500]})
 
+    # ---------------------------------------------------------------- YAML core-schema tags (!!str, !!int, ...): explicit typing of a scalar
+    if ctx.mine(1):
+        core_tags = [("!!str 5", "5"), ("!!str true", "true"), ("!!str null", "null"), ("!!str ''", ""), ("!!int 5", 5), ("!!int '7'", 7), ("!!int -3", -3),
+                     ("!!float 1.5", 1.5), ("!!float 2", 2.0), ("!!float '1e3'", 1000.0), ("!!bool true", True), ("!!bool 'false'", False), ("!!null ~", None), ("!!null null", None),
+                     ("!!str 1e3", "1e3"), ("!!str 0x10", "0x10")]
+        for spelled, want in core_tags:
+            for tmpl, getter in (("k: %s\n", lambda d: d["k"]), ("k:\n  - %s\n  - x\n", lambda d: d["k"][0]), ("{k: {j: %s}}\n", lambda d: d["k"]["j"])):
+                text = tmpl % spelled
+                got = {}
+                for which in ("validate", "serde"):
+                    r = ctx.w.run({"k": "load", "which": which, "text": text})
+                    ctx.res.cases += 1
+                    try:
+                        got[which] = ("value", getter(from_dump(json.loads(r["out"])))) if r.get("r") == "ok" else ("error", None)
+                    except (KeyError, IndexError, TypeError, ValueError):
+                        got[which] = ("odd", None)
+                ctx.res.counts["core_tag_probes"] += 1
+                case = {"kind": "coretag", "text": text, "want": want, "where": tmpl}
+                for which, (kind_, val) in got.items():
+                    if kind_ != "value" or not strict_eq(val, want):
+                        ctx.violation("core-tag:%s:%s" % (which, spelled.split(" ")[0]), "`%s` must load as %r; the %s loader gives %s %r" % (text.strip(), want, which, kind_, val), case)
+                        break
+                else:
+                    ctx.res.distinct.add(("core-tag", spelled.split(" ")[0], type(want).__name__))
     # ---------------------------------------------------------------- tag table (exhaustive)
     if ctx.mine(0) or not ctx.quick:
         payload_scalar = ["plain", "'quoted str'", "a.b", "arn:aws:s3:::bucket/key"]
@@ -338,6 +362,13 @@ def replay(case, w):
         if r.get("r") != "ok":
             return False, "rejected"
         return strict_eq(from_dump(json.loads(r["out"])), case["model"]), "loaded value compared with the model"
+    if k == "coretag":
+        getter = {"k: %s\n": lambda d: d["k"], "k:\n  - %s\n  - x\n": lambda d: d["k"][0], "{k: {j: %s}}\n": lambda d: d["k"]["j"]}[case["where"]]
+        for which in ("validate", "serde"):
+            r = w.run({"k": "load", "which": which, "text": case["text"]})
+            if r.get("r") != "ok" or not strict_eq(getter(from_dump(json.loads(r["out"]))), case["want"]):
+                return False, "%s loader" % which
+        return True, "both loaders give the tagged type"
     if k == "tag":
         def val(which, text):
             r = w.run({"k": "load", "which": which, "text": text})
